@@ -91,6 +91,11 @@ def main():
                     proof["discharged"] += 1 if good else 0
                     if not good:
                         ctx.broken.append(f"theorem {t}: {axs}")
+                if okb and tier == "thorough":
+                    okc, outc = common.leanchecker(module)
+                    proof["leanchecker"] = "ok" if okc else outc[-800:]
+                    if not okc:
+                        ctx.broken.append("leanchecker rejects " + module + ": " + outc[-400:])
                 banned = common.grep_banned(module)
                 if banned:
                     ctx.broken.append("banned constructs: " + "; ".join(banned[:5]))
@@ -128,6 +133,8 @@ def main():
     cov.setdefault("checker_cmd", f"cd lean && lake build {module} && lake env lean .cache/Audit (#print axioms)")
     cov.setdefault("trusted_base", TRUSTED_BASE + getattr(mod, "EXTRA_TRUSTED", []))
     cov["theorems"] = proof["theorems"]
+    if "leanchecker" in proof:
+        cov["leanchecker"] = proof["leanchecker"]
     cov["known_findings_reported"] = [k[0] for k in ctx.known]
     cov["notes"] = ctx.notes
     common.write_evidence(pid, tier, seed, getattr(mod, "LEVEL", "proof"), cov, wall, nviol,
